@@ -28,7 +28,7 @@ func c08configs() []c08cfg {
 	rich := func() *Cfg {
 		return &Cfg{
 			Meta: &Meta{Pkg: P("gen"), DefaultMustGetter: P(true),
-				Imports:   []KV{{"a", "fx/a"}, {"ab", "fx/ab"}, {"pk", "fx/pk"}, {"zz", "fx/pk2"}},
+				Imports:   []KV{{"a", "fx/b/pkg"}, {"ab", "fx/ab"}, {"pk", "fx/pk"}, {"zz", "fx/pk2"}},
 				Functions: []KV{{"f1", "pk.FnStr"}, {"f2", "ab.FnInt"}, {"f3", `"fx/a".FnE`}}},
 			Params: []Param{{"p3", "%f3()%%p1%"}, {"p1", 1}, {"p2", "%f1()%-%f2()%-%p1%"}},
 			Services: []Service{
